@@ -87,16 +87,13 @@ func (s Shape) CalcStridesWithMask(mask []bool) []int {
 
 // CalcStridesColMajor is like CalcStrides, but assumes a col major layout
 func (s Shape) CalcStridesColMajor() []int {
-	if s.IsScalarEquiv() {
+	if s.IsScalar() {
 		return nil
 	}
 
+	// one stride per axis, for vectors and scalar-equivalents as well: everything that walks
+	// an access pattern indexes strides[i] for every axis i (as CalcStrides does)
 	retVal := BorrowInts(len(s))
-	if s.IsVector() {
-		retVal[0] = 1
-		retVal = retVal[:1]
-		return retVal
-	}
 
 	acc := 1
 	for i := 0; i < len(s); i++ {
